@@ -1,3 +1,5 @@
+import itertools
+
 import torch
 
 from ..domain import Domain, BoundaryDomain
@@ -71,7 +73,7 @@ class Rotate(Domain):
             rotation_matrix, rotate_around
         )
         super().__init__(self.domain.space, self.domain.dim)
-        self.set_necessary_variables(self.rotation_fn)
+        self.set_necessary_variables(self.rotation_fn, self.rotate_around)
         self.necessary_variables.update(self.domain.necessary_variables)
 
     @classmethod
@@ -182,25 +184,25 @@ class Rotate(Domain):
         return Points(rotated_points, self.space)
 
     def bounding_box(self, params=Points.empty(), device="cpu"):
+        dim = self.space.dim
         domain_bounds = self.domain.bounding_box(params=params, device=device)
-        translate_values = self.rotate_around(params).reshape(-1, self.space.dim)
-        rotation_matrix = self.rotation_fn(params).reshape(
-            -1, self.space.dim, self.space.dim
+        domain_bounds = domain_bounds.reshape(-1, 2 * dim)
+        translate_values = self.rotate_around(params).reshape(-1, 1, dim)
+        rotation_matrix = self.rotation_fn(params).reshape(-1, 1, dim, dim)
+        # domain_bounds are in shape [x_min, x_max, y_min, y_max, ...].
+        # The rotated box is in general not spanned by the images of the two
+        # corners (min, min, ...) and (max, max, ...): all 2^dim corners have to be
+        # rotated, the new bounds are the extreme coordinates of their images.
+        pick_max = torch.tensor(
+            list(itertools.product([False, True], repeat=dim)), device=device
+        ).unsqueeze(0)
+        corners = torch.where(
+            pick_max, domain_bounds[:, None, 1::2], domain_bounds[:, None, ::2]
         )
-        translation_values = torch.repeat_interleave(translate_values, 2, 1)
-        # domain_bounds are in shape [x_min, x_max, y_min, y_max, ...]
-        # both min and max have to be shifted by the same value
-        domain_bounds = domain_bounds - translation_values
-        rotated_min = torch.matmul(rotation_matrix, domain_bounds[:, ::2].unsqueeze(-1))
-        rotated_min = rotated_min.squeeze(-1)
-        rotated_max = torch.matmul(
-            rotation_matrix, domain_bounds[:, 1::2].unsqueeze(-1)
-        )
-        rotated_max = rotated_max.squeeze(-1)
-        domain_bounds = torch.zeros(
-            (len(rotated_min), 2 * self.space.dim), device=device
-        )
-        domain_bounds[:, ::2] = torch.min(rotated_min, rotated_max)
-        domain_bounds[:, 1::2] = torch.max(rotated_min, rotated_max)
-        domain_bounds = domain_bounds + translation_values
-        return domain_bounds.squeeze(0)
+        corners = corners - translate_values
+        rotated_corners = torch.matmul(rotation_matrix, corners.unsqueeze(-1))
+        rotated_corners = rotated_corners.squeeze(-1) + translate_values
+        new_bounds = torch.zeros((len(rotated_corners), 2 * dim), device=device)
+        new_bounds[:, ::2] = torch.min(rotated_corners, dim=1).values
+        new_bounds[:, 1::2] = torch.max(rotated_corners, dim=1).values
+        return new_bounds.squeeze(0)
